@@ -205,6 +205,7 @@ type runOpts struct {
 	Package        string // proto package (default "protoconf")
 	DryRun         options.DryRun
 	ProtoOut       *options.ProtoOutputOption // proto output options (default: none set)
+	ConfSubdir     string                     // conf output Subdir (default: none)
 }
 
 func (o runOpts) pkg() string {
@@ -258,7 +259,7 @@ func (w *workspace) genConf(o runOpts, paths ...string) error {
 	co := &options.ConfOption{
 		Input: &options.ConfInputOption{ProtoPaths: append([]string{w.Proto}, o.ProtoPaths...), ProtoFiles: []string{filepath.Join(w.Proto, "*.proto")}, Formats: fmts, Subdirs: o.Subdirs, SubdirRewrites: o.SubdirRewrites},
 		Output: &options.ConfOutputOption{Formats: outf, Pretty: o.Pretty, EmitUnpopulated: o.EmitUnpop, EmitTimezones: o.EmitTimezones,
-			UseProtoNames: o.UseProtoNames, UseEnumNumbers: o.UseEnumNumbers, DryRun: o.DryRun},
+			UseProtoNames: o.UseProtoNames, UseEnumNumbers: o.UseEnumNumbers, DryRun: o.DryRun, Subdir: o.ConfSubdir},
 	}
 	setters := []options.Option{options.Conf(co), options.Log(quietLog), options.Lang(lang)}
 	loc := o.LocationName
